@@ -125,6 +125,11 @@ impl pocket_db::verif::Hooks for ConcHooks {
             if name == "es:after_resize" {
                 let _ = self.ctl.resizes.fetch_add(1, std::sync::atomic::Ordering::SeqCst);
             }
+            if name.ends_with(":after_commit") {
+                // LMDB releases its writer mutex inside commit: from here on another thread may
+                // take it, although this thread has not returned yet
+                self.ctl.release_writer_if_held(t);
+            }
             self.ctl.yield_at(t, St::Parked(name));
         }
     }
